@@ -124,6 +124,10 @@ func ParseRtcpHeader(b []byte) RtcpHeader {
 // @param b rtcp包，包含包头
 func ParseSr(b []byte) Sr {
 	var s Sr
+	if len(b) < 28 {
+		// 注意，长度不够时返回空的Sr
+		return s
+	}
 	s.SenderSsrc = bele.BeUint32(b[4:])
 	s.Msw = bele.BeUint32(b[8:])
 	s.Lsw = bele.BeUint32(b[12:])
